@@ -1,12 +1,94 @@
 /- Driver operations of property C07 (ops are named "c07.<name>"). Core + Lean.Data.Json only. -/
 import Reamber.Util.Json
+import Reamber.Model.O2J
+import Reamber.Spec.O2J
 
 open Lean Reamber.J
 
 namespace Reamber.C07
 
-def handle (op : String) (_j : Json) : Except String Json :=
+open Reamber.O2J
+
+def f32ToJson : F32 → Json
+  | .fin q => obj [("fin", ratToJson q)]
+  | .inf n => obj [("inf", Json.bool n)]
+  | .nan => Json.str "nan"
+
+def fieldToJson : Field → Json
+  | .int i => intToJson i
+  | .flt f => f32ToJson f
+  | .byte b => natToJson b
+
+def metaValToJson : MetaVal → Json
+  | .int i => obj [("k", Json.str "int"), ("v", intToJson i)]
+  | .flt f => obj [("k", Json.str "flt"), ("v", f32ToJson f)]
+  | .byte b => obj [("k", Json.str "byte"), ("v", natToJson b)]
+  | .list l => obj [("k", Json.str "list"), ("v", listToJson fieldToJson l)]
+  | .text cs => obj [("k", Json.str "text"), ("v", listToJson natToJson cs)]
+  | .bytes bs => obj [("k", Json.str "bytes"), ("v", listToJson natToJson bs)]
+
+def headerToJson (h : List (String × MetaVal)) : Json := obj (h.map (fun p => (p.1, metaValToJson p.2)))
+
+def noteOutToJson (o : NoteOut) : Json :=
+  match o.note with
+  | .hit s => Json.arr #[ratToJson s.pos, intToJson s.col, natToJson s.vol, natToJson s.pan, ratToJson o.time]
+  | .hold h t => Json.arr #[ratToJson h.pos, ratToJson t.pos, intToJson h.col, natToJson h.vol, natToJson h.pan,
+                            ratToJson o.time, optToJson ratToJson o.len]
+
+def isHit (o : NoteOut) : Bool := match o.note with | .hit _ => true | _ => false
+
+def levelToJson (l : LevelOut) : Json :=
+  obj [("hits", listToJson noteOutToJson (l.notes.filter isHit)),
+       ("holds", listToJson noteOutToJson (l.notes.filter (fun o => !isHit o))),
+       ("bpms", listToJson (fun (b : BpmOut) => Json.arr #[ratToJson b.pos, ratToJson b.bpm, ratToJson b.time]) l.bpms)]
+
+def resToJson {α} (f : α → Json) : Except Err α → Json
+  | .ok v => okJson (f v)
+  | .error e => errJson e.toString
+
+def domToJson (d : Spec.LevelDom) : Json :=
+  obj [("no_measure_fraction", Json.bool d.noMeasureFraction), ("tempos_positive", Json.bool d.temposPositive),
+       ("measures_nonneg", Json.bool d.measuresNonneg), ("closed", Json.bool d.closed), ("paired", Json.bool d.paired)]
+
+/-- the specification side for a whole file: header at the declared offsets; per level the expected content -/
+def specFile (bs : List Nat) : Json :=
+  match Spec.specMeta bs with
+  | .error e => obj [("header", errJson e.toString)]
+  | .ok hdr =>
+    let counts : List Int := match lookupMeta hdr "package_count" with | some (.list l) => intsOf l | _ => []
+    let init : Option Rat := match lookupMeta hdr "bpm" with | some (.flt (.fin q)) => some q | _ => none
+    let framed := Spec.frameLevels counts (bs.drop Spec.headerSize)
+    let lv : Json :=
+      match framed, init with
+      | some lvls, some q =>
+        listToJson (fun pk => obj [("out", resToJson levelToJson (Spec.specLevel q pk)), ("dom", domToJson (Spec.levelDom pk)),
+                                   ("packages", natToJson pk.length)]) lvls
+      | _, _ => Json.null
+    obj [("header", okJson (headerToJson hdr)), ("framed", Json.bool framed.isSome),
+         ("init_positive", Json.bool (match init with | some q => decide (0 < q) | none => false)), ("levels", lv)]
+
+def handle (op : String) (j : Json) : Except String Json := do
   match op with
+  | "c07.run" =>
+    let bs ← getArr natOf? j "b"
+    let m := readFile bs
+    .ok (obj [("model", resToJson (fun (f : FileOut) => obj [("header", headerToJson f.header),
+                                                             ("levels", listToJson levelToJson f.levels)]) m),
+              ("spec", specFile bs)])
+  | "c07.f32" =>
+    let bs ← getArr natOf? j "b"
+    .ok (okJson (f32ToJson (decodeF32 bs)))
+  | "c07.int" =>
+    let bs ← getArr natOf? j "b"
+    .ok (okJson (obj [("i16", intToJson (decodeI16 (bs.take 2))), ("i32", intToJson (decodeI32 bs))]))
+  | "c07.time" =>
+    -- posTime for explicit tempo events [[pos, bpm], ...] and positions
+    let init ← getRat j "init"
+    let evs ← getArr (fun e => match e with
+      | Json.arr #[a, b] => do .ok ((← ratOf? a), (← ratOf? b))
+      | _ => .error "event expected [pos, bpm]") j "evs"
+    let ps ← getArr ratOf? j "ps"
+    .ok (okJson (listToJson ratToJson (ps.map (Spec.posTime init evs))))
   | _ => .error s!"unknown op {op}"
 
 end Reamber.C07
